@@ -309,3 +309,80 @@ Print Assumptions C08_resolve_erase_all.
 Print Assumptions C08_resolver_then_bytes.
 Print Assumptions C08_resolver_then_bytes_kinds.
 Print Assumptions C08_seed_example.
+
+(* ---- the dependency order between name resolution and the type checker (Dep/LeafPrune.v, Dep/AnnOrder.v) ----
+   compile_after_order is "type-check, then lower what was given"; the ordering step of compiler.rs (initialization_order +
+   the types-first sort = Dep/Topo.v init_order, the model C11 ties to the real order) runs before it and was not part
+   of the theorems above.  An annotation adds the type names it mentions to the dependencies of a definition; blob / enum
+   statements have no dependencies themselves, so they are leaves of the DFS:
+   C08_order_leaf_prune   removing from every dependency list the keys of payloads with no dependencies of their own (`tp`)
+                      changes neither the verdict of `order` nor the subsequence of the other payloads in its result.
+   C08_order_verdict_erase   for resolved r1 r2 with same_modulo_annotations r1 r2: the non-type statements of
+                      initialization_order come out in the same order (equal modulo annotations), and a dependency cycle in
+                      one is the same cycle in the other.
+   C08_lower_ignores_type_stmts   the lowering emits nothing for blob / enum statements, wherever they stand.
+   C08_order_then_backend_erase   if init_order succeeds on r1 it succeeds on r2, and the backend text of the two ordered
+                      (types first) lists is the same.
+   C08_resolver_order_backend   from source: resolve ast = Ok r1 -> resolve (erase_all_annotations ast) = Ok r2 -> init_order r1 =
+                      OOk l1 -> init_order r2 = OOk l2 with the same backend text.
+   Hypothesis ann_deps_ok (computable; evaluated on every real resolved program of the C11 tie): for every statement, the
+   dependencies that are not type declarations are those of the statement without its annotations -- i.e. annotations
+   name types only.  The RESOLVER does not enforce that: `Foo :: 1   x: Foo = 2` resolves (the type checker rejects it:
+   "Only enums and blobs can take type-arguments"), and `x: Later = 2   Later :: fn -> int do ret x end` is rejected with
+   "Dependency cycle" where the un-annotated program compiles -- both variants with such an annotation are rejected, so no
+   accepted program is affected.  The type checker's acceptance of the erased program is not part of this (the C08_accept theorems). *)
+From Sylt Require Dep.Topo Dep.LeafPrune Dep.AnnOrder.
+
+Theorem C08_order_leaf_prune : forall {A : Type} (tp : A -> bool) (key_of : A -> N) (t : Sylt.Dep.Topo.table A),
+  (forall k deps a, Sylt.Dep.Topo.tbl_get t k = Some (deps, a) -> key_of a = k) ->
+  (forall k deps a, Sylt.Dep.Topo.tbl_get t k = Some (deps, a) -> tp a = true -> deps = []) ->
+  Sylt.Dep.LeafPrune.ofilter tp (Sylt.Dep.Topo.order (Sylt.Dep.LeafPrune.prune tp t))
+  = Sylt.Dep.LeafPrune.ofilter tp (Sylt.Dep.Topo.order t).
+Proof. intros A. exact (@Sylt.Dep.LeafPrune.order_prune A). Qed.
+
+Theorem C08_order_verdict_erase : forall tgt r1 r2,
+  same_modulo_annotations r1 r2 ->
+  Sylt.Dep.AnnOrder.ann_deps_ok tgt (r_stmts r1) = true -> Sylt.Dep.AnnOrder.ann_deps_ok tgt (r_stmts r2) = true ->
+  Sylt.Dep.AnnOrder.onf (Sylt.Dep.Topo.initialization_order tgt (r_stmts r1))
+  = Sylt.Dep.AnnOrder.onf (Sylt.Dep.Topo.initialization_order tgt (r_stmts r2)).
+Proof. exact Sylt.Dep.AnnOrder.order_verdict_erase. Qed.
+
+Theorem C08_lower_ignores_type_stmts : forall fuel vars l,
+  IR.lower fuel (mkResolved vars (filter Sylt.Dep.AnnOrder.ntype l)) = IR.lower fuel (mkResolved vars l).
+Proof. exact Sylt.Dep.AnnOrder.lower_ignores_type_stmts. Qed.
+
+Theorem C08_order_then_backend_erase : forall tgt fuel req r1 r2 l1,
+  same_modulo_annotations r1 r2 ->
+  Sylt.Dep.AnnOrder.ann_deps_ok tgt (r_stmts r1) = true -> Sylt.Dep.AnnOrder.ann_deps_ok tgt (r_stmts r2) = true ->
+  Sylt.Dep.Topo.init_order tgt (r_stmts r1) = Sylt.Dep.Topo.OOk l1 ->
+  exists l2, Sylt.Dep.Topo.init_order tgt (r_stmts r2) = Sylt.Dep.Topo.OOk l2
+    /\ Emit.backend fuel req (mkResolved (r_vars r1) l1) = Emit.backend fuel req (mkResolved (r_vars r2) l2).
+Proof. exact Sylt.Dep.AnnOrder.order_then_backend_erase_ok. Qed.
+
+Theorem C08_resolver_order_backend : forall fl tgt fuel req ast r1 r2 l1,
+  Sylt.Resolve.Resolver.resolve fl ast = Sylt.Resolve.Resolver.Ok r1 ->
+  Sylt.Resolve.Resolver.resolve fl (Sylt.Resolve.AnnErase.erase_all_annotations ast) = Sylt.Resolve.Resolver.Ok r2 ->
+  Sylt.Dep.AnnOrder.ann_deps_ok tgt (r_stmts r1) = true -> Sylt.Dep.AnnOrder.ann_deps_ok tgt (r_stmts r2) = true ->
+  Sylt.Dep.Topo.init_order tgt (r_stmts r1) = Sylt.Dep.Topo.OOk l1 ->
+  exists l2, Sylt.Dep.Topo.init_order tgt (r_stmts r2) = Sylt.Dep.Topo.OOk l2
+    /\ Emit.backend fuel req (mkResolved (r_vars r1) l1) = Emit.backend fuel req (mkResolved (r_vars r2) l2).
+Proof. exact Sylt.Resolve.AnnEraseLua.resolver_order_backend_erase. Qed.
+
+Theorem C08_seed_order_example :
+  exists r1 r2 l1 l2,
+    Sylt.Resolve.Resolver.resolve (Sylt.Resolve.Resolver.mkFlags true true true false false) Sylt.Resolve.AnnEraseLua.seed_annotated
+    = Sylt.Resolve.Resolver.Ok r1
+    /\ Sylt.Resolve.Resolver.resolve (Sylt.Resolve.Resolver.mkFlags true true true false false) Sylt.Resolve.AnnEraseLua.seed_plain
+       = Sylt.Resolve.Resolver.Ok r2
+    /\ Sylt.Dep.AnnOrder.ann_deps_ok true (r_stmts r1) = true /\ Sylt.Dep.AnnOrder.ann_deps_ok true (r_stmts r2) = true
+    /\ Sylt.Dep.Topo.init_order true (r_stmts r1) = Sylt.Dep.Topo.OOk l1
+    /\ Sylt.Dep.Topo.init_order true (r_stmts r2) = Sylt.Dep.Topo.OOk l2
+    /\ Emit.backend 20 None (mkResolved (r_vars r1) l1) = Emit.backend 20 None (mkResolved (r_vars r2) l2).
+Proof. exact Sylt.Resolve.AnnEraseLua.seed_order_example. Qed.
+
+Print Assumptions C08_order_leaf_prune.
+Print Assumptions C08_order_verdict_erase.
+Print Assumptions C08_lower_ignores_type_stmts.
+Print Assumptions C08_order_then_backend_erase.
+Print Assumptions C08_resolver_order_backend.
+Print Assumptions C08_seed_order_example.
